@@ -6,6 +6,7 @@ from .sorts import *      # noqa
 from . import types as Ty
 from . import front
 from .front import Unsupported
+from .state import tid
 from .state import (SV, State, const_sv, truthy, shape, field_type, KIND, CLS, cls_in, new_list, new_dict,
                     new_exception, new_instance, new_list_from_seq, alloc, elem_type, int_of, str_of, val_of,
                     GHOSTS)
@@ -96,11 +97,13 @@ class Exec(ExecExpr):
                     else:
                         kwargs[name] = v
                 if star is not None:
-                    keys = c2.notes.get(('keys', str(star.term)))
+                    keys = c2.notes.get(('keys', tid(star.term)))
                     if keys is None:
                         raise Unsupported('**mapping whose keys are not statically known (line %d)' % n.lineno)
                     for k in keys:
-                        kwargs[k] = SV(c2.DV[va(star.term)][lit(k)], Ty.ANY)
+                        vterm = c2.DV[va(star.term)][lit(k)]
+                        c2.assume(shape(c2, vterm, Ty.ANY, pre=c2.DV.eq(z3.Const('DV0', DVArr))))
+                        kwargs[k] = SV(vterm, Ty.ANY)
                 if callee[0] == 'method':
                     _, kind, recv, mname = callee
                     h = BUILTIN_METHODS.get((kind, mname))
@@ -242,7 +245,7 @@ class Exec(ExecExpr):
         if kwarg is not None:
             items = [(const_sv(k), v) for k, v in sorted(extra.items())]
             d = new_dict(st, items, Ty.STR, None)
-            st.notes[('keys', str(d.term))] = [k for k in sorted(extra)]
+            st.notes[('keys', tid(d.term))] = [k for k in sorted(extra)]
             env[kwarg] = d
         for name in pos + kwonly:
             if name not in env:
@@ -364,6 +367,9 @@ class Exec(ExecExpr):
         n.notes['calls'] = n.notes.get('calls', ()) + ((c.qual, 'ret', rterm, c.returns),)
         if self.feasible(n):
             normals.append((n, res))
+        elif self.feasible(old) and not getattr(c, 'may_not_return', False):
+            # vacuity guard: the call site is reachable but the callee's contract admits no normal return here
+            self.eng.warnings.append('normal outcome of call#%d(%s) in %s is infeasible: contradictory contract?' % (k, short, self.fi.qual))
         return normals, raises
 
     def havoc(self, st, c, env, old, lets, modname):
